@@ -155,6 +155,16 @@ fn judge(r: &Run, c: &Case) -> Option<(String, String)> {
     if t != c.expected {
         return Some(("data".into(), format!("got {t:?}, expected {:?}", c.expected)));
     }
+    let fds: Vec<i32> = r
+        .final_fds
+        .as_deref()
+        .unwrap_or("0= 1= 2=")
+        .split_whitespace()
+        .filter_map(|t| t.split('=').next().and_then(|f| f.parse().ok()))
+        .collect();
+    if fds != [0, 1, 2] {
+        return Some(("fd-leak".into(), format!("descriptors open in the shell at exit: {fds:?}")));
+    }
     if !r.unreaped.is_empty() || !r.alive.is_empty() || !r.stderr.is_empty() {
         return Some(("leftover".into(), format!("zombies={:?} alive={:?} stderr={:?}", r.unreaped, r.alive, r.stderr)));
     }
